@@ -92,6 +92,15 @@ def impl_check(c, weighted, timeout=3000, workers=16):
     return tlc.run_tlc("ListDictImpl", cfg, workers=workers, coverage=True, timeout=timeout)
 
 
+def impl_inductive(n, weighted, wmax, invariants=("IndInv", "ObservablesAgree", "SelectionExact", "ZeroNeverSelected"), timeout=3000, workers=8):
+    """ListDictInd.tla: TLC starts in EVERY state satisfying IndInv inside the value box and takes one call of every
+    kind; the invariants are required of every successor (inductiveness by enumeration, history length unbounded)."""
+    cc = {"N": n, "Weights": set(range(0, 4)) if weighted else {1}, "Incs": {0, 1, 2} if weighted else set(), "MaxOps": 1,
+          "AllowResum": bool(weighted), "Weighted": bool(weighted), "WMax": wmax, "CntBelow": 2, "CntHi": n + 1}
+    cfg = tlc.cfg_text(cc, invariants=list(invariants), init="IndInit", next_="Next")
+    return tlc.run_tlc("ListDictInd", cfg, workers=workers, coverage=True, timeout=timeout)
+
+
 def branch_coverage(res, module="ListDictImpl"):
     """{marker: count}: TLC's expression-level coverage of the spec lines that carry an
     `@cov:<name>` comment (largest count of an expression starting on that line)."""
